@@ -152,5 +152,9 @@ fn is_go_predeclared(s: &str) -> bool {
             | "real"
             | "recover"
             | "fmt"
+            // not predeclared, but as unusable for a user function: Go's `init` is special and
+            // `main0` is what the entry function is emitted as
+            | "init"
+            | "main0"
     )
 }
